@@ -163,6 +163,7 @@ class C12(ValsetBase):
         for e in events:
             byh.setdefault(e["h"], []).append(e)
         r1 = r2 = None
+        tried2 = 0
         for h, evs in byh.items():
             if evs[0].get("comma"):
                 continue
@@ -175,17 +176,23 @@ class C12(ValsetBase):
                     c[k]["obs"]["until"][new[0]] = p["obs"]["until"][new[0]]
                     v = self.validate(c)
                     r1 = any(n.startswith("C12.JailedAtNextSweep") for n, _, _ in v.monfail)
-                if r2 is None and e["act"] == "KeepAlive" and e["res"] == "ok" and k + 1 < len(evs):
+                # (a keep-alive that is immediately repeated by the same validator, or that changed nothing observable, can be
+                # dropped without trace: the following event explains the same observation - not a candidate; up to 10
+                # candidates are tried, the number is recorded)
+                if not r2 and tried2 < 10 and e["act"] == "KeepAlive" and e["res"] == "ok" and k + 1 < len(evs) and e["obs"] != p["obs"] \
+                        and not (evs[k + 1]["act"] == "KeepAlive" and evs[k + 1]["args"].get("v") == e["args"].get("v")):
+                    tried2 += 1
                     d = [dict(x) for x in evs[:k] + evs[k + 1:]]
                     for j, x in enumerate(d):
                         x["i"] = j
                     v2 = self.validate(d)
-                    r2 = bool(v2.monfail) or not v2.accepted
-            if r1 is not None and r2 is not None:
+                    # noticed = a monitor fails, the spec's own action no longer explains the step (conformance), or the trace is rejected
+                    r2 = bool(v2.monfail) or bool(v2.conffail) or not v2.accepted
+            if r1 is not None and (r2 or tried2 >= 10):
                 break
         if r1 is None or r2 is None:
             return {"ok": False, "why": "no suitable history (jailing by a check / accepted keep-alive)", "hidden_jailing": r1, "dropped_keepalive": r2}
-        return {"ok": bool(r1 and r2), "hidden_jailing_rejected": r1, "dropped_keepalive_rejected": r2}
+        return {"ok": bool(r1 and r2), "hidden_jailing_rejected": r1, "dropped_keepalive_rejected": r2, "dropped_keepalive_candidates_tried": tried2}
 
 
 CHECK = C12()
